@@ -7,7 +7,7 @@
    bytes) and its 202 back-off budget.  All theorems quantify over every such environment. *)
 From Coq Require Import List NArith Bool.
 From K.Model Require Import C35.
-From K.Proof Require C35.
+From K.Proof Require C35 C35_b.
 Import ListNotations.
 Local Open Scope N_scope.
 
@@ -90,6 +90,19 @@ Theorem C35_partial_then_full_refuted :
 Proof. exact Proof.C35.partial_then_full_refuted. Qed.
 Print Assumptions C35_partial_then_full_refuted.
 
+(* The fix is conservative: in an environment where no origin drops the connection after at
+   least one body byte, the patched and the pinned code return the same result and bytes. *)
+Theorem C35_fix_conservative : forall os, no_partial os = true -> download_prefix os = download os.
+Proof. exact Proof.C35_b.fix_conservative. Qed.
+Print Assumptions C35_fix_conservative.
+
+(* What the pinned code does guarantee: on success the blob is in the destination, but only
+   as a suffix - preceded by whatever the failed attempts wrote. *)
+Theorem C35_pinned_blob_is_suffix_partial : forall blob os dst,
+  honest blob os = true -> download_prefix os = (Ok, dst) -> exists junk, dst = junk ++ blob.
+Proof. exact Proof.C35_b.prefix_blob_is_suffix. Qed.
+Print Assumptions C35_pinned_blob_is_suffix_partial.
+
 (* non-vacuity: an honest environment in which origins fail in every silent way before one
    delivers after a 202; the hypotheses of C35_success_exact / C35_failover_succeeds hold *)
 Example C35_nonvacuous_success :
@@ -108,4 +121,11 @@ Example C35_nonvacuous_cut_ends_download :
   honest blob os = true /\ download os = (Failed, [1; 2]) /\
   any_complete [mkorigin [RResp 200 [1; 2] false] 5; mkorigin [RResp 404 [] true] 5] = false /\
   download [mkorigin [RResp 503 [] true] 5; mkorigin [RResp 404 [] true] 5] = (NotFound, []).
+Proof. vm_compute. repeat split; reflexivity. Qed.
+
+(* non-vacuity of C35_fix_conservative: failures of every other kind, no mid-body cut *)
+Example C35_nonvacuous_conservative :
+  let os := [mkorigin [RResp 503 [1] false] 5; mkorigin [RResp 202 [] true; RResp 200 [] false] 5;
+             mkorigin [RNet] 5; mkorigin [RResp 200 [4; 5] true] 5] in
+  no_partial os = true /\ download_prefix os = (Ok, [4; 5]) /\ download os = (Ok, [4; 5]).
 Proof. vm_compute. repeat split; reflexivity. Qed.
